@@ -218,6 +218,45 @@ def lin_specials(tier):
     return out
 
 
+# Gaussian matrix worlds  gmat:<parameterisation>:<storage>:<size>:<variant>:  a Gaussian whose matrix parameter is an ARRAY
+# OBJECT OF THE USER (the library keeps the very object, or a factor computed from it, and every conditioned copy shares it)
+GM_PARS = ["cov", "prec", "sqrtcov", "sqrtprec"]            # which of the four matrix parameters the user gives
+GM_STORAGE = ["symC", "symF", "fullC", "fullF"]              # dense symmetric | dense non-symmetric non-triangular (legal for the two
+#                                                              square roots only) x C-ordered | Fortran-ordered (the user passes R.T)
+GM_SIZES = ["small", "large"]                                # dimension 3 | config.MIN_DIM_SPARSE + 1 (the library's sparse switch)
+GM_VARIANTS = ["known", "cond", "joint"]                     # mean a vector of the user | mean = lambda m: m (conditional original) |
+#                                                              JointDistribution(y | x ~ N(A x, c I), x ~ this Gaussian)
+
+
+def gm_legal(par, sto):
+    return sto.startswith("sym") or par in ("sqrtcov", "sqrtprec")
+
+
+def gm_specials(tier):
+    """[(name, depth)] of the Gaussian matrix worlds of a tier"""
+    q = tier == "quick"
+    out = []
+    for par in GM_PARS:
+        for sto in GM_STORAGE:
+            if not gm_legal(par, sto):
+                continue
+            for sz in GM_SIZES:
+                for var in GM_VARIANTS:
+                    if q and var == "joint" and (sz == "large" or not sto.endswith("F")):
+                        continue     # quick: the joint variant (consumers) for the Fortran-ordered small matrices only
+                    out.append(("gmat:%s:%s:%s:%s" % (par, sto, sz, var), 2 if (q or sz == "large") else 3))
+    return out
+
+
+# finite-difference worlds: cells whose alphabet is {cond(S), call0, to_likelihood, reads} + the history-dependent FD switches
+# (fd_on / fd_eps / fd_off on the object itself and on the likelihood / prior it carries), NOT reverted inside the history
+FD_CELLS = {
+    "quick": [("factor", "G1", "y", 3), ("factor", "G1", "x", 3), ("special", "lin:mat:id:joint", None, 3),
+              ("special", "lognormal-cond", None, 3)],
+    "thorough": [("factor", "G1", "y", 4), ("factor", "G1", "x", 4), ("special", "lin:mat:id:joint", None, 4)],
+}
+
+
 def cells(tier, seed):
     cats = [refs.cat(seed)] if tier == "quick" else [0, 1, 2]
     q = tier == "quick"
@@ -250,6 +289,29 @@ def cells(tier, seed):
             if q and cl not in WRAP_OWN_CODE:
                 continue
             out.append({"kind": "special", "name": "wrapj:" + cl, "cat": k, "depth": 2 if q else 3})
+        for sp, d in gm_specials(tier):
+            if not q and k != cats[0] and sp.split(":")[3] == "large":
+                continue         # thorough: the large matrices in catalogue 0 only
+            out.append({"kind": "special", "name": sp, "cat": k, "depth": d})
+    # finite-difference worlds (un-reverted FD switches in the history)
+    fdc = list(FD_CELLS["quick"]) if q else list(FD_CELLS["thorough"])
+    if not q:
+        for gid in JOINTS:
+            g = GR.GRAPHS[gid]
+            fdc.append(("joint", gid, None, 3 if len(g.free) <= 3 else 2))
+            for name in g.free + g.data0:
+                fdc.append(("factor", gid, name, 3))
+        for sp in SPECIALS + lin_specials(tier) + ["gmat:sqrtprec:fullF:small:%s" % v for v in GM_VARIANTS]:
+            fdc.append(("special", sp, None, 3))
+    for kind, a, b, d in fdc:
+        c = {"kind": kind, "cat": cats[0], "depth": d, "alphabet": "fd"}
+        if kind == "special":
+            c["name"] = a
+        else:
+            c["graph"] = a
+            if kind == "factor":
+                c["name"] = b
+        out.append(c)
     # naming cells: how the random-variable name is given (explicit name= / inferred from the variable the object is
     # assigned to) x when the name is first read; one cell per (world, focus original, first operation on the focus)
     for wid in NAMING_ORDER:
@@ -269,8 +331,10 @@ def cells(tier, seed):
             c["closing"] = "leaf" if q else ("full" if c["depth"] <= 3 else "leaf")
             # attribute assignment (a parameter of a live object := another value):  "leaf" = it closes a history (it is undone
             # before the sibling histories continue), "full" = it stays in force for the whole sub-tree below it
-            wrap = c["kind"] == "special" and (c["name"] in WRAP or c["name"].startswith("wrapj:"))
-            if q:
+            wrap = c["kind"] == "special" and (c["name"] in WRAP or c["name"].startswith("wrapj:") or c["name"].startswith("gmat:"))
+            if c.get("alphabet") == "fd":
+                pass             # (finite-difference worlds: no assignment, no refused / consumer operations)
+            elif q:
                 if wrap or (c["kind"] == "factor" and c["graph"] == "G1" and c["name"] in ("x", "d")):
                     c["assign"] = "leaf"
             elif c["kind"] == "special":
@@ -299,6 +363,7 @@ class World:
         self.override = override
         self.override_used = False
         self.inforce = []    # attribute assignments currently in force: [object index, attribute, old value, {index: fingerprint before}]
+        self.fdforce = []    # FD switches made in the current history, in order: [op name, object index, part, state before, {index: fingerprint before}]
         self.extra_props = False
         self.objs = []
         self.role = []       # 'original' | 'tracked' | 'pool'
@@ -451,6 +516,36 @@ class World:
                 self.valsB = {"x": pos(refs.dyadic_vec(4, k + 3)), "a": pos(refs.dyadic_vec(4, k + 4)) + 1, "b": pos(refs.dyadic_vec(4, k + 5))}
                 self.valsC = {"a": np.array([2.0 + 0.5 * k]), "b": np.array([1.5])}
             self.use_condB = True
+        elif name.startswith("gmat:"):
+            _, par, sto, sz, var = name.split(":")
+            n = 3 if sz == "small" else int(cuqi.config.MIN_DIM_SPARSE) + 1
+            _M = gm_matrix(par, sto, n, k)                       # the array object the user passes (Fortran: the view R.T)
+            _m0 = refs.dyadic_vec(n, k + 2, scale=0.125)          # the user's mean vector
+            self.extra_props = True
+            self.user_arrays = True
+            if var == "known":
+                self.add(self.mk(D.Gaussian, mean=_m0, name="x", **{par: _M}), "original")
+                _tr = [_M, _m0]
+            elif var == "cond":
+                self.add(self.mk(D.Gaussian, mean=lambda m: m, geometry=n, name="x", **{par: _M}), "original")
+                _tr = [_M]
+            elif var == "joint":
+                _A = cuqi.model.LinearModel(refs.full_matrix(2, n, k))
+                _y = self.mk(D.Gaussian, _slot=1, mean=_A, cov=0.25 + 0.125 * k, name="y")
+                _x = self.mk(D.Gaussian, _slot=2, mean=_m0, name="x", **{par: _M})
+                self.add(D.JointDistribution(_y, _x), "original")
+                _tr = [_y, _x, _A, _M, _m0]
+            else:
+                raise ValueError(name)
+            for _o in _tr:
+                self.add(_o, "tracked")
+            self.vals = {"x": refs.dyadic_vec(n, k + 1, scale=0.25), "m": refs.dyadic_vec(n, k + 3, scale=0.25),
+                         "y": refs.dyadic_vec(2, k + 2, scale=0.5)}
+            self.valsB = {"x": refs.dyadic_vec(n, k + 4, scale=0.25), "m": refs.dyadic_vec(n, k + 5, scale=0.25),
+                          "y": refs.dyadic_vec(2, k + 6, scale=0.5)}
+            _keep = {"known": ("x",), "cond": ("x", "m"), "joint": ("x", "y")}[var]
+            self.vals = {_n: self.vals[_n] for _n in _keep}
+            self.valsB = {_n: self.valsB[_n] for _n in _keep}
         elif name.startswith("lin:"):
             _, df, gm, fc = name.split(":")
             _A, _x, _y = lin_world(df, gm, k, self.mk, {"joint": (2, 1), "y": (1, 0), "model": (2, 1)}[fc])
@@ -507,6 +602,24 @@ def _wrapper(self, cl, variant, k, nm, _slot=None):
 
 
 World.wrapper = _wrapper
+
+
+def gm_matrix(par, sto, n, k):
+    """The matrix a user passes as ``par`` of an n-dimensional Gaussian.  sym = a well-conditioned SPD matrix S (eigenvalues
+    apart); full = S H with H a Householder reflection: square, non-singular, neither symmetric nor triangular (legal as a square
+    root only).  C = an owning C-contiguous array; F = the transposed VIEW of a C-contiguous array holding the transpose (what a
+    user writes as R.T): same numbers, Fortran-ordered memory, float64."""
+    S = refs.spd_matrix(n, k)
+    S = 0.5 * (S + S.T)
+    if sto.startswith("full"):
+        if par not in ("sqrtcov", "sqrtprec"):
+            raise ValueError("a non-symmetric %s is not a legal parameter" % par)
+        v = refs.dyadic_vec(n, k + 1)
+        S = S @ (np.eye(n) - 2.0 * np.outer(v, v) / float(v @ v))
+    if sto.endswith("C"):
+        return np.ascontiguousarray(S, dtype=float)
+    _base = np.ascontiguousarray(S.T, dtype=float)
+    return _base.T
 
 
 def lin_world(df, gm, k, mk, slots):
@@ -779,6 +892,12 @@ def fingerprint(obj, w, light=False):
     """Ordered list of (entry name, value).  Only public, behavioural observations.
     ``light``: only the entries that involve random-variable names (LIGHT)."""
     import cuqi
+    if isinstance(obj, np.ndarray):
+        # an array object of the USER that was handed to a constructor: its bytes (logical order), layout and writability
+        import hashlib
+        return [("class", "ndarray"), ("shape", tuple(obj.shape)), ("dtype", str(obj.dtype)),
+                ("layout", (bool(obj.flags["C_CONTIGUOUS"]), bool(obj.flags["F_CONTIGUOUS"]), bool(obj.flags["WRITEABLE"]))),
+                ("bytes", hashlib.sha1(obj.tobytes()).hexdigest()), ("values", np.array(obj, dtype=float).ravel()[:6])]
     kd = kind_of(obj)
     fp = [("class", type(obj).__name__)]
     if light and kd != "model":
@@ -813,6 +932,9 @@ def fingerprint(obj, w, light=False):
     if hasattr(obj, "get_conditioning_variables"):
         fp.append(("conditioning_variables", guard(lambda: tuple(obj.get_conditioning_variables()))))
     fp.append(("dim", guard(lambda: obj.dim if not isinstance(obj.dim, list) else tuple(obj.dim))))
+    # the finite-difference switch (public properties) of the object and of the likelihood / prior it carries
+    for _pt in fd_parts(obj):
+        fp.append(("FD" if _pt == "self" else "FD." + _pt, fd_state(fd_part(obj, _pt))))
     if kd in ("dist", "lik"):
         fp.append(("geometry", guard(lambda: (type(obj.geometry).__name__, obj.geometry.par_shape))))
     if kd == "dist" and hasattr(obj, "get_mutable_variables"):
@@ -884,6 +1006,40 @@ def fingerprint(obj, w, light=False):
     return fp
 
 
+def fd_part(obj, part):
+    """the object whose FD switch is meant: the object itself, or the likelihood / first likelihood / prior it carries"""
+    if part == "self":
+        return obj
+    if part == "likelihood0":
+        return obj.likelihoods[0]
+    return getattr(obj, part)
+
+
+def fd_parts(obj):
+    """which FD switches an object offers through its public interface"""
+    out = []
+    import cuqi
+    if isinstance(obj, cuqi.density.EvaluatedDensity):
+        return out       # a constant: its gradient always refuses, the switch has no behaviour; conditioning it returns the object itself
+    if hasattr(obj, "enable_FD") and hasattr(obj, "disable_FD") and hasattr(obj, "FD_enabled"):
+        out.append("self")
+    if isinstance(obj, cuqi.distribution.Posterior):
+        cand = ("likelihood", "prior")
+    elif isinstance(obj, cuqi.distribution.MultipleLikelihoodPosterior):
+        cand = ("likelihood0", "prior")
+    else:
+        cand = ()
+    for p in cand:
+        _s = guard(lambda: fd_part(obj, p))
+        if hasattr(_s, "enable_FD") and hasattr(_s, "disable_FD") and hasattr(_s, "FD_enabled"):
+            out.append(p)
+    return out
+
+
+def fd_state(tgt):
+    return guard(lambda: (bool(tgt.FD_enabled), None if tgt.FD_epsilon is None else float(tgt.FD_epsilon)))
+
+
 def fp_diff(a, b):
     """first differing entry name, or None"""
     for (na, va), (nb, vb) in zip(a, b):
@@ -952,12 +1108,47 @@ def tracked_assign_ops(w):
     return out
 
 
+FD_OPS = ("fd_on", "fd_eps", "fd_off")
+# alphabet of a finite-difference world
+FD_ALPHABET = ("reads", "to_likelihood", "call0", "cond", "condB", "apply") + FD_OPS
+FD_EPS = (1e-3, 1e-2)        # the second spacing: the first one that differs from the spacing in force
+
+
+def fd_ops_for(w, i):
+    """History-dependent FD alphabet of object i: a switch that is off can be turned on (enable_FD(), default spacing); a switch
+    that is on can be given ANOTHER spacing (enable_FD(epsilon=e2)) or be turned off (disable_FD); for the object itself and for
+    the likelihood / prior a posterior carries."""
+    out = []
+    for part in fd_parts(w.objs[i]):
+        st = fd_state(fd_part(w.objs[i], part))
+        if len(st) != 2 or st[0] == "exc":
+            continue
+        if st[0]:
+            out.append(("fd_eps", i, part))
+            out.append(("fd_off", i, part))
+        else:
+            out.append(("fd_on", i, part))
+    return out
+
+
+def tracked_fd_ops(w):
+    """joint worlds: the factors the joint was built from are switched as well (the joint holds these very objects)"""
+    out = []
+    if w.cell.get("alphabet") == "fd" and kind_of(w.objs[0]) == "joint":
+        for j in range(1, w.ntracked):
+            if kind_of(w.objs[j]) == "dist":
+                out += fd_ops_for(w, j)
+    return out
+
+
 def ops_for(w, i):
     """Operation alphabet for target index i in world w: list of (opname, i, arg)."""
     import cuqi
     obj = w.objs[i]
     kd = kind_of(obj)
     ops = []
+    if w.cell.get("alphabet") == "fd" and kd in ("dist", "lik", "joint"):
+        ops += fd_ops_for(w, i)
     if kd == "model":
         ops.append(("reads", i, None))
         for j, _d in enumerate(w.objs):
@@ -1180,6 +1371,7 @@ def do_op(w, op):
     v = w.vals
     w.last_results = {}
     w.last_assign = None
+    w.last_fd = None
     if name in CLOSING:
         if name in BUNDLES:
             subs = BUNDLES[name](w, i)
@@ -1218,6 +1410,22 @@ def do_op(w, op):
             w.last_assign = [i, arg, _old, _newv]
             setattr(obj, arg, _newv)
             return "assign:" + arg, None
+        if name in FD_OPS:
+            tgt = fd_part(obj, arg)
+            st = fd_state(tgt)
+            w.last_fd = None
+            if name == "fd_on":
+                tgt.enable_FD()
+                exp = (True, 1e-8)
+            elif name == "fd_eps":
+                e2 = [e for e in FD_EPS if not (st[0] is True and st[1] == e)][0]
+                tgt.enable_FD(epsilon=e2)
+                exp = (True, e2)
+            else:
+                tgt.disable_FD()
+                exp = (False, None)
+            w.last_fd = [name, i, arg, st, exp]
+            return name, None
         if name == "enable_fd":
             tgt = obj.likelihood if hasattr(obj, "likelihood") and hasattr(obj.likelihood, "enable_FD") else obj
             tgt.enable_FD(epsilon=1e-3)        # coarse step: the switch is visible in the gradient entry
@@ -1263,6 +1471,8 @@ def op_str(w, op):
         s += "{%s}" % ",".join(arg)
     elif name == "assign":
         s += ".%s" % arg
+    elif name in FD_OPS:
+        s += ".%s" % arg
     elif name == "apply":
         s += "(obj%d)" % arg
     elif name == "join":
@@ -1281,7 +1491,7 @@ class Explorer:
         self.nfail = {}
         self.outs = []       # outcomes of the operations of the current history (baseline world)
 
-    def label(self):
+    def _label(self):
         c = self.cell
         if c["kind"] == "joint":
             return "joint %s" % c["graph"]
@@ -1291,9 +1501,15 @@ class Explorer:
             return "naming %s.%s" % (c["world"], c["focus"])
         return "special %s" % c["name"]
 
+    def label(self):
+        return self._label() + (" [FD world]" if self.cell.get("alphabet") == "fd" else "")
+
     def fresh(self):
         w = World(self.cell)
-        for i, _o in enumerate(w.objs):
+        # (the user's own arrays first: their baseline is taken before any library object is read)
+        arrays = [i for i, _o in enumerate(w.objs) if isinstance(_o, np.ndarray)]
+        for i in arrays + [i for i in range(len(w.objs)) if i not in arrays]:
+            _o = w.objs[i]
             f1 = fingerprint(_o, w)
             f2 = fingerprint(_o, w)
             w.fp[i] = f1
@@ -1302,6 +1518,13 @@ class Explorer:
                 if not getattr(self, "unstable", False):
                     self.report(w, [], i, d, "fingerprint", f1, f2, confirmed=True)
                 self.unstable = True     # the read-only operations of the fingerprint alter the object: reported once
+        for i in arrays:
+            f3 = fingerprint(w.objs[i], w)
+            d = fp_diff(w.fp[i], f3)
+            if d is not None:
+                if not getattr(self, "unstable_array", False):
+                    self.report(w, [], i, d, "fingerprint", w.fp[i], f3, confirmed=True)
+                self.unstable = self.unstable_array = True
         return w
 
     def report(self, w, history, j, entry, opname, before, after, confirmed, latent_log=None, new_object=False):
@@ -1392,6 +1615,58 @@ class Explorer:
                         extra_bad.append((j, "view:" + d, fingerprint(_v, w), w.fp[j], False))
                 del _v
 
+    def fd_group(self, w, i):
+        """object i and everything that by construction IS object i seen through another interface: a Likelihood made by
+        to_likelihood forwards its FD switch to the distribution it holds, so the group is taken from that distribution"""
+        r = i
+        while r >= w.ntracked and w.how.get(r) == "to_likelihood" and kind_of(w.objs[r]) == "lik" and w.src[r] is not None:
+            r = w.src[r]
+        L = [r] + [j for j in w.views_of(r) if j != r]
+        return L if i in L else L + [i]
+
+    def after_fd(self, w, extra_bad):
+        """An FD switch of object i (or of the likelihood / prior it carries) was just set.  The object and its VIEWS legitimately
+        change and are re-baselined - every other live object is compared with its earlier fingerprint by the caller.  Oracle for
+        the switched object: it reports the state that was asked for."""
+        res = self.res
+        name, i, part, before, exp = w.last_fd
+        L = self.fd_group(w, i)
+        # (L[0] = the object that holds the switch: object i, or the distribution a Likelihood view of it forwards to)
+        w.fdforce.append([name, i, part, before, {j: w.fp[j] for j in L}, L[0] if L[0] != i else i])
+        for j in L:
+            w.fp[j] = fingerprint(w.objs[j], w)
+        _t = w.objs[i]
+        res.count("%s:%s.%s" % (name, type(_t).__name__, part))
+        res.outcomes.add("%s:%s.%s:%s:was=%s" % (name, type(_t).__name__, part,
+                                                 "original" if i == 0 else ("factor" if i < w.ntracked else w.how.get(i)), before))
+        now = fd_state(fd_part(_t, part))
+        res.evaluations += 1
+        if now != exp:
+            extra_bad.append((i, "FD-readback", [("FD-readback", exp)], [("FD-readback", now)], False))
+
+    def undo_fd(self, w):
+        """put the switch back the way it was (public interface); -> [(index, entry, fingerprint before, now)] for the objects
+        that are not what they were before the switch was set"""
+        name, i, part, before, saved, _root = w.fdforce.pop()
+        out = []
+
+        def back():
+            _t = fd_part(w.objs[i], part)
+            if before[0] is True:
+                _t.enable_FD(epsilon=before[1])
+            else:
+                _t.disable_FD()
+        r = guard(back)
+        for j in sorted(saved):
+            if j < len(w.objs):
+                f2 = fingerprint(w.objs[j], w)
+                self.res.evaluations += 1
+                d = fp_diff(saved[j], f2)
+                if d is not None or isinstance(r, tuple):
+                    out.append((j, d or "raises", saved[j], f2))
+                w.fp[j] = saved[j]
+        return out
+
     def undo_assign(self, w):
         """assign the old value back; -> [(index, entry, fingerprint before the assignment, fingerprint now)] for the objects
         that are not what they were before the assignment"""
@@ -1458,12 +1733,15 @@ class Explorer:
     def step(self, w, op):
         """Apply op in world w; fingerprint; returns (outcome, alterations, name_problem)."""
         n0 = len(w.objs)
+        pre_fd = tuple((r[0], r[5], r[2]) for r in w.fdforce if r[5] < w.ntracked)
         outcome, _new = do_op(w, op)
         self.res.transitions += 1
         self.res.count("op:" + op[0])
         extra_bad = []
         if op[0] == "assign" and outcome.startswith("assign:"):
             self.after_assign(w, extra_bad)
+        if op[0] in FD_OPS and w.last_fd is not None:
+            self.after_fd(w, extra_bad)
         if outcome.startswith("refused"):
             self.res.refused += 1
         if op[0] in CLOSING:
@@ -1511,12 +1789,15 @@ class Explorer:
             # (assignments made earlier in this history to an original / tracked object and still in force belong to the
             # fresh world as well; the one just made is the operation itself)
             pre = tuple((r[0], r[1]) for r in w.inforce if r[0] < w.ntracked and not (op[0] == "assign" and r[0] == op[1] and r[1] == op[2]))
-            key = (pre, op[0], op[1], tuple(op[2]) if isinstance(op[2], (tuple, list)) else op[2])
+            key = (pre, pre_fd, op[0], op[1], tuple(op[2]) if isinstance(op[2], (tuple, list)) else op[2])
             cache = self.__dict__.setdefault("_fresh_new_fp", {})
             if key not in cache:
                 w0 = World(self.cell)
                 for _i, _a in pre:
                     do_op(w0, ("assign", _i, _a))
+                for _f in pre_fd:
+                    # (the FD switches made earlier in this history on an original / tracked object belong to the fresh world too)
+                    do_op(w0, _f)
                 _o0, _n0 = do_op(w0, op)
                 cache[key] = (_o0, fingerprint(_n0, w0) if _n0 is not None else None, dict(w0.last_results))
             o0, f0, r0 = cache[key]
@@ -1659,7 +1940,8 @@ class Explorer:
             f = dict(w.fp[j])
             desc.append("%s%s" % (f.get("class"), f.get("parameter_names", f.get("argument_names"))))
         asg = ",".join(sorted("%s.%s" % ("orig" if r[0] < w.ntracked else "copy", r[1]) for r in w.inforce))
-        return "%s|%s%s" % (self.label(), "+".join(sorted(desc)), ("|assigned:" + asg) if asg else "")
+        fds = ",".join("%s:%s.%s" % (r[0], "orig" if r[1] == 0 else ("factor" if r[1] < w.ntracked else "copy"), r[2]) for r in w.fdforce)
+        return "%s|%s%s%s" % (self.label(), "+".join(sorted(desc)), ("|assigned:" + asg) if asg else "", ("|fd:" + fds) if fds else "")
 
     def dfs(self, history, newest=None):
         res = self.res
@@ -1674,6 +1956,9 @@ class Explorer:
             allops += naming_ops_for(self.w, i) if naming else ops_for(self.w, i)
         if not naming:
             allops += tracked_assign_ops(self.w)
+            allops += tracked_fd_ops(self.w)
+        if self.cell.get("alphabet") == "fd":
+            allops = [o for o in allops if o[0] in FD_ALPHABET]
         if naming and not history:
             # the cell covers the sub-tree below ONE first operation; the size of the root alphabet is part of the bound
             n_exp = naming_first_ops(self.cell["world"], self.cell["focus"])
@@ -1695,6 +1980,7 @@ class Explorer:
             self.outs = self.outs[:len(history)]
             n0 = len(w.objs)
             n_inforce = len(w.inforce)
+            n_fdforce = len(w.fdforce)
             self.log.append(op_str(w, op))
             outcome, bad, nameprob = self.step(w, op)
             self.outs.append(outcome)
@@ -1756,6 +2042,14 @@ class Explorer:
                 continue
             self.dfs(h2, newest=(len(w.objs) - 1) if len(w.objs) > n0 else None)
             self.w.truncate(n0)
+            while len(self.w.fdforce) > n_fdforce:
+                # leaving the sub-tree of an FD switch: it is put back the way it was (enable_FD(old spacing) / disable_FD); should
+                # that not restore the objects the live world is rebuilt
+                if self.undo_fd(self.w):
+                    res.count("fd_undo_not_clean")
+                    self.w, _t0, _ = self.replay(history)
+                    self.log = [op_str(self.w, o) for o in history]
+                    break
             while len(self.w.inforce) > n_inforce:
                 # leaving the sub-tree of an assignment: the old value is assigned back; should that not restore the objects the
                 # live world is rebuilt (the restore oracle itself is decided where assignments close a history)
